@@ -150,12 +150,13 @@ Print Assumptions C16_expand_if_call.
 (* where a hygienized function injects: a body that only emits puts its statements as one block at
    the function's definition point, in emission order ... *)
 Theorem C16_hygienize_flat_call_block_partial :
+  HYGIENIZE_USES_CURSORS = false ->        (* the index bookkeeping of today's code (h_run), not the cursor variant *)
   forall s h xs,
     (h_saved s h <= length (h_nodes s))%nat ->
     h_nodes (h_run HYGIENIZE_ADJUSTS_CALLER s (HCall h (map HEmit xs)))
     = firstn (h_saved s h) (h_nodes s) ++ xs ++ skipn (h_saved s h) (h_nodes s) /\
     h_saved (h_run HYGIENIZE_ADJUSTS_CALLER s (HCall h (map HEmit xs))) h = (h_saved s h + length xs)%nat.
-Proof. intros s h xs L. exact (flat_call_block_lemma HYGIENIZE_ADJUSTS_CALLER s h xs L). Qed.
+Proof. intros _ s h xs L. exact (flat_call_block_lemma HYGIENIZE_ADJUSTS_CALLER s h xs L). Qed.
 Print Assumptions C16_hygienize_flat_call_block_partial.
 
 (* ... but the full statement (own statements keep their emission order whatever the body calls) is
@@ -163,6 +164,6 @@ Print Assumptions C16_hygienize_flat_call_block_partial.
    definition point shifts the list under the caller's saved index *)
 Definition C16_hygienize_own_order_full : Prop := inject_own_order HYGIENIZE_ADJUSTS_CALLER.
 Theorem C16_hygienize_own_order_refuted :
-  HYGIENIZE_ADJUSTS_CALLER = false -> ~ C16_hygienize_own_order_full.
-Proof. unfold C16_hygienize_own_order_full. intros ->. exact inject_own_order_refuted_lemma. Qed.
+  HYGIENIZE_USES_CURSORS = false -> HYGIENIZE_ADJUSTS_CALLER = false -> ~ C16_hygienize_own_order_full.
+Proof. unfold C16_hygienize_own_order_full. intros _ ->. exact inject_own_order_refuted_lemma. Qed.
 Print Assumptions C16_hygienize_own_order_refuted.
